@@ -9,7 +9,10 @@ From TucModel Require Import Base.Bytes Base.ListX Model.Bounds Spec.Resolve Pro
   Tie.Gen_ub_partial_cmp Tie.Bridge_ub_partial_cmp
   Tie.Gen_ub_matches Tie.Bridge_ub_matches
   Tie.Gen_ub_try_into_range Tie.Bridge_ub_try_into_range
-  Tie.Gen_complement_std_range Tie.Bridge_complement_std_range.
+  Tie.Gen_complement_std_range Tie.Bridge_complement_std_range
+  Tie.Gen_ub_new Tie.Bridge_ub_new Tie.Gen_ub_from_range Tie.Bridge_ub_from_range
+  Tie.Gen_ub_unpack Tie.Bridge_ub_unpack Tie.Gen_ub_complement Tie.Bridge_ub_complement
+  Proofs.C13.
 Import ListNotations.
 Local Open Scope Z_scope.
 
@@ -69,7 +72,44 @@ Theorem tie_orderings : forall (a b : side) (x y : ubound),
   /\ (exists c, gen_ub_partial_cmp x y = Ret c /\ bound_le x y = ord_le c).
 Proof. intros. split; [apply tie_side_partial_cmp | apply tie_ub_partial_cmp]. Qed.
 
+(** C08 / C07 / C13: the translated [unpack] turns a bound that resolves to the parts s+1..e into
+    exactly e-s single-part bounds, for the parts s+1, s+2, .., e in order (one JSON element, one
+    character each), and keeps a bound that does not resolve as it is - fallback included, so that
+    whoever prints it applies the fallback or fails. *)
+Theorem tie_unpack_spec : forall (b : ubound) (n : nat),
+  Z.of_nat n <= i32_max -> bound_nz b ->
+  match try_into_range b n with
+  | Some (s, e) => gen_ub_unpack b (Z.of_nat n) = Ret (map (fun k => single (Z.of_nat s + 1 + Z.of_nat k)) (seq 0 (e - s)))
+  | None => gen_ub_unpack b (Z.of_nat n) = Ret [b]
+  end.
+Proof.
+  intros b n Hn Hnz. rewrite (tie_ub_unpack b n Hn (nz_left b Hnz)). unfold unpack_bound.
+  destruct (try_into_range b n) as [[s e]|]; [|reflexivity]. f_equal.
+  generalize (e - s)%nat as c. intros c. revert s. induction c as [|c IH]; intros s; [reflexivity|].
+  cbn [singles_from seq map]. f_equal; [f_equal; lia|].
+  rewrite <- seq_shift, map_map, IH. apply map_ext. intros k. f_equal. lia.
+Qed.
+
+(** C15: the translated [complement] of a bound that resolves to [s, e) on n parts is the bounds for
+    the non-empty ones among [0, s) and [e, n), in that order, none of them carrying a fallback; a
+    bound that does not resolve has no complement (the caller keeps it: C13). *)
+Theorem tie_C15_complement_of_a_bound : forall (b : ubound) (n : nat),
+  Z.of_nat n <= i32_max -> bound_nz b ->
+  match try_into_range b n with
+  | Some (s, e) => gen_ub_complement b (Z.of_nat n)
+                   = Ret (Some (map (fun r => of_range (fst r) (snd r)) (complement_spec n s e)))
+  | None => gen_ub_complement b (Z.of_nat n) = Ret None
+  end.
+Proof.
+  intros b n Hn Hnz. rewrite (tie_ub_complement b n Hn (nz_left b Hnz)). unfold complement_bound.
+  destruct (try_into_range b n) as [[s e]|] eqn:E; [|reflexivity].
+  destruct (try_into_range_some b n s e Hnz E) as (_ & _ & _ & Hlt).
+  rewrite (complement_std_range_spec n s e Hlt). reflexivity.
+Qed.
+
 Print Assumptions tie_try_into_range_spec.
+Print Assumptions tie_unpack_spec.
+Print Assumptions tie_C15_complement_of_a_bound.
 Print Assumptions tie_C09_range_unchanged.
 Print Assumptions tie_C15_complement.
 Print Assumptions tie_matches_spec.
